@@ -11,5 +11,4 @@ CONSTANTS
   MaxHist = 2
 INVARIANT HTypeOK
 INVARIANT AnswerOfLast
-INVARIANT AnswersFitOracle
 PROPERTY HistoryIndependent
